@@ -11,6 +11,7 @@ mod rulecons;
 mod find;
 mod leap;
 mod zonecons;
+mod dtinv;
 
 use common::*;
 
@@ -39,6 +40,7 @@ fn main() {
             "find" => find::replay(&v["case"], &args),
             "leap" => leap::replay(&v["case"], &args),
             "zonecons" => zonecons::replay(&v["case"], &args),
+            "dtinv" => dtinv::replay(&v["case"], &args),
             _ => {
                 eprintln!("no replay for engine {}", args.engine);
                 2
@@ -56,6 +58,7 @@ fn main() {
             "find" => find::run(&args),
             "leap" => leap::run(&args),
             "zonecons" => zonecons::run(&args),
+            "dtinv" => dtinv::run(&args),
             e => {
                 eprintln!("unknown engine {e}");
                 2
